@@ -208,6 +208,70 @@ def run(ctx):
                     if not same:
                         ctx.oracle_fail("cost", case, "result on the big register differs from the compressed run", None)
     ctx.suite("registers", cases=n, sizes=sizes)
+    # wide circuits: many DISTINCT qubits touched by one pass (each gate still has at most two operands). Widths are
+    # tried in increasing order and the escalation stops at the first width whose cost is out of budget, so that a
+    # pass whose cost grows with the number of qubits touched is reported at a width where it is still harmless.
+    widths = [6, 12, 40] if ctx.quick else [6, 10, 16, 40, 200]
+    n_w, stop = 0, False
+    for W in widths:
+        if stop:
+            break
+        for rep in range(ctx.pick(1, 3)):
+            N = rng.choice([W, max(W, 64), 100000])
+            idx = sorted(rng.sample(range(N), W))
+            specs = []
+            order = list(range(W))
+            rng.shuffle(order)
+            for a, b in zip(order, order[1:]):
+                two = gen.rand_gate_spec(rng, 2, max_ctrl=1)
+                specs += relabel_specs([["named", "H", [0]], two], {0: idx[a], 1: idx[b]})
+            specs = [sp for sp in specs if gen.is_gate_spec(sp)]
+            for steps in [[["decompose", d]] for d in (implrun.DEC_NAMES if not ctx.quick else rng.sample(implrun.DEC_NAMES, 3) + ["mckay", "cnot"])] + \
+                    [[["merge"]], [["replace", "CNOT", "cnot_to_hczh"]], [["replace", "CZ", "cz_to_hcnoth"]],
+                     [["decompose", "cnot"], ["merge"], ["decompose", "mckay"]], [["map", "reverse"]]]:
+                case = {"kind": "wide", "width": W, "N": N, "specs": specs, "steps": steps}
+                n_w += 1
+                ctx.seen(case, True)
+                ctx.bump(f"wide_{W}")
+                big = gen.build_circuit(N, 1, specs)
+                t0 = time.perf_counter()
+                try:
+                    with SizeRecorder() as rec, implrun.time_limit(int(TIME_BUDGET) + 20):
+                        got = run_steps(big, steps, N)
+                    gerr = None
+                except implrun.Timeout:
+                    got, gerr = None, "timeout"
+                except MemoryError:
+                    got, gerr = None, "memory"
+                except Exception as e:  # noqa: BLE001
+                    got, gerr = None, implrun.errkind(e)
+                dt = time.perf_counter() - t0
+                if gerr in ("timeout", "memory") or dt > TIME_BUDGET:
+                    ctx.oracle_fail("cost", case, f"time {dt:.1f}s on a circuit touching {W} qubits of {N} ({gerr})", None)
+                    stop = True
+                    continue
+                if rec.sizes and max(rec.sizes) > 2:
+                    ctx.oracle_fail("cost", case, f"a matrix on {max(rec.sizes)} qubits was built; every gate has at most 2 operands", None)
+                    stop = True
+                    continue
+                # a single decompose / replace step acts gate by gate: the result is the concatenation of the results on
+                # one-statement circuits
+                if len(steps) == 1 and steps[0][0] in ("decompose", "replace") and gerr is None and rep == 0 and W <= 40:
+                    want = []
+                    werr = None
+                    for sp in specs:
+                        one = gen.build_circuit(N, 1, [sp])
+                        try:
+                            want += run_steps(one, steps, N)
+                        except Exception as e:  # noqa: BLE001
+                            werr = implrun.errkind(e)
+                            break
+                    strip = lambda xs: [[x[0]] + list(x[2:]) if isinstance(x, list) and x and x[0] in ("gate", "measure", "reset") else x for x in xs]  # noqa: E731
+                    if werr is None and ser.struct_diff(strip(got), strip(want), 1e-12) is not None:
+                        ctx.oracle_fail("cost", case, "a wide circuit is not rewritten gate by gate", None)
+                elif gerr is not None and not (len(steps) == 1 and steps[0][0] in ("decompose", "replace")):
+                    ctx.oracle_fail("cost", case, f"pass raised {gerr} on a wide circuit", None)
+    ctx.suite("wide_circuits", cases=n_w, widths=widths)
     # correspondence: model on the big register (indices as binary integers) = impl, for one pass each
     items = []
     for _ in range(ctx.pick(12, 80)):
